@@ -89,6 +89,8 @@ class Interp:
             base = self.ev(node.value) if not isinstance(node.value, ast.Name) or U(node.value) in self.env else None
             if isinstance(base, dict) and node.attr in base:
                 return base[node.attr]
+            if isinstance(base, dict) and node.attr in base.get("__props__", ()):
+                return base["__props__"][node.attr](base)  # a property of the modelled object, computed at access time
             if isinstance(base, Unknown):
                 return Unknown(text)
             raise AnalysisError(f"guard language: attribute {text!r} has no declared domain")
@@ -246,6 +248,9 @@ class Interp:
             try:
                 return {"str": str, "int": int, "float": float, "len": len, "bool": bool, "abs": abs}[name](*args)
             except (ValueError, TypeError) as exc:
+                if any(hasattr(a, "free_symbols") for a in args):
+                    import sympy
+                    return sympy.Function(name)(*args)  # symbolic evaluation: the conversion stays an uninterpreted term
                 raise Flow("raise", f"{type(exc).__name__}({str(exc)!r})", node) from None
         if name in ("range", "enumerate", "zip", "min", "max", "sum", "sorted", "list", "tuple", "reversed", "round") \
                 and name not in self.env and not node.keywords:
